@@ -38,7 +38,13 @@ def gen_job(verif_seed, tier, index):
             rn = g.choice([x for x in names if x not in used] or names)
             used.append(rn)
             mt.update({"shape": "ring", "residues": [rn] * n, "edges": [[i, i + 1] for i in range(n - 1)] + [[0, n - 1]]})
-            if n >= 4 and g.random() < 0.35:
+            if n >= 4 and g.random() < 0.2:
+                # 'lollipop': a stem of 2-3 residues listed FIRST (the growth root is off the ring), then the ring
+                st_n = g.randint(2, 3)
+                mt["residues"] = [rn] * (st_n + n)
+                mt["edges"] = [[i, i + 1] for i in range(st_n + n - 1)] + [[st_n, st_n + n - 1]]
+                job["ring_with_side_chain"] = True
+            elif n >= 4 and g.random() < 0.35:
                 # a ring that carries one or two pendant residues (side chain): the residue numbered last is not the
                 # one that closes the ring
                 for t in range(g.randint(1, 2)):
